@@ -39,6 +39,8 @@ CHECKS["C07"] = {
         # two overlapping StoreExternal calls: the second runs at a lock boundary of the first (symbolic choice)
         {"harness": "VerifC07Intf", "params": {"n": 4, "pre": [0, 1, 2]}},
         {"harness": "VerifC07Intf", "params": {"n": 3, "pre": [0, 1]}},
+        # never-expiring duties: per-share cap of 10 exempt entries, eviction, resend (concrete shares/duties)
+        {"harness": "VerifC07Exempt", "params": {}, "unwind": 14},
     ],
     "thorough": [
         {"harness": "VerifC07Single", "params": {"n": 4, "k": 6, "dtype": 2, "vals": [0, 21], "ints": [0, 21, 63]}, "cross": True},
@@ -121,7 +123,7 @@ _RUN_TT = _run(6 + 6 * 7, 0, 2, 2)                                            # 
 # n=6: a ROUND-CHANGE carrying 4 nested PREPAREs, a fifth PREPARE directly, then the timer: the process prepares with MORE
 # than a quorum of PREPAREs and must still send a ROUND-CHANGE every honest receiver accepts (L12)
 _RUN_N6 = {"pkg": _QB, "harness": "VerifRun", "params": {"n": 6, "k": 3, "p": 2, "ev": 4 + 2 * 7 + 6 * 49, "jl": 4}, "prune": 1000, "timeout_ms": 600000, "case_timeout_s": 7000}
-_RUN_T = [_RUN_PPPP, _RUN_CCCD, _RUN_DCCC, _RUN_TRRR, _RUN_PTP, _RUN_PPPX, _RUN_ITR]
+_RUN_T = [_RUN_PPPP, _RUN_CCCD, _RUN_TRRR, _RUN_PTP, _RUN_PPPX, _RUN_ITR]  # _RUN_DCCC did not finish in 2 hours: not registered
 
 _FN_Q = list(CHECKS["C02"]["quick"])
 _FN_T = list(CHECKS["C02"]["thorough"])
@@ -148,10 +150,10 @@ def _only(cases, harnesses, typ=None):
 
 CHECKS["C03"] = dict(CHECKS["C02"])
 CHECKS["C03"]["quick"] = _FN_Q + _RUN_Q_C03
-CHECKS["C03"]["thorough"] = _only(_FN_T, {"VerifQuorumArith", "VerifJustDecided", "VerifClassify"}, typ=[3, 5]) + _RUN_Q_C03 + [_RUN_CCCD, _RUN_DCCC, _RUN_PPPP]
+CHECKS["C03"]["thorough"] = _only(_FN_T, {"VerifQuorumArith", "VerifJustDecided", "VerifClassify"}, typ=[3, 5]) + _RUN_Q_C03 + [_RUN_CCCD, _RUN_PPPP]
 CHECKS["C03"]["bounds"] = dict(CHECKS["C02"]["bounds"])
 CHECKS["C03"]["bounds"]["quick"] = CHECKS["C03"]["bounds"]["quick"].split("; Run-level")[0] + "; Run-level: the real Run loop (n=4) fed DECIDED,DECIDED (3 symbolic justifications each) and COMMIT,COMMIT,COMMIT with symbolic contents: at most one decision, backed by a quorum of distinct COMMIT(round,value), quorum certificate handed to Decide contains it"
-CHECKS["C03"]["bounds"]["thorough"] = "n in 3..7 for DECIDED justification and quorum arithmetic; classify on COMMIT / DECIDED buffers (n=4,5); Run-level sequences C,C,C,D | D,C,C,C | PP,P,P,P"
+CHECKS["C03"]["bounds"]["thorough"] = "n in 3..7 for DECIDED justification and quorum arithmetic; classify on COMMIT / DECIDED buffers (n=4,5); Run-level sequences C,C,C,D | PP,P,P,P (D,C,C,C with 3 justifications did not finish within 2 hours and is not registered)"
 
 # C04 (termination, partial): producer/verifier agreement and round-change progress rules, plus the round timers
 _TM = "./core/consensus/timer"
@@ -196,17 +198,27 @@ CHECKS["C17"] = {
     "pkg": "./core/aggsigdb",
     "parallel": 5,
     "quick": [
-        {"harness": "VerifC17V1", "params": {"k": [3, 4]}, "prune": 1000},
+        {"harness": "VerifC17V1", "params": {"k": [3, 4], "keyspace": 0}, "prune": 1000},
+        {"harness": "VerifC17V1", "params": {"k": 3, "keyspace": 1}, "prune": 1000},
         {"harness": "VerifC17V2Seq", "params": {}},
         {"harness": "VerifC17V2Wake", "params": {"samekey": [0, 1]}},
+        {"harness": "VerifC17V2Mixed", "params": {}},
+        {"harness": "VerifC17V2Mixed", "params": {}, "reversemaps": True},
+        {"harness": "VerifC17V2Partial", "params": {"wrongtype": [0, 1]}},
+        {"harness": "VerifC17V2Partial", "params": {"wrongtype": [0, 1]}, "reversemaps": True},
     ],
     "thorough": [
-        {"harness": "VerifC17V1", "params": {"k": [3, 4, 5, 6]}, "prune": 1000, "timeout_ms": 600000, "case_timeout_s": 14000},
+        {"harness": "VerifC17V1", "params": {"k": [3, 4, 5, 6], "keyspace": 0}, "prune": 1000, "timeout_ms": 600000, "case_timeout_s": 14000},
+        {"harness": "VerifC17V1", "params": {"k": [3, 4, 5], "keyspace": 1}, "prune": 1000, "timeout_ms": 600000, "case_timeout_s": 14000},
         {"harness": "VerifC17V2Seq", "params": {}, "cross": True},
         {"harness": "VerifC17V2Wake", "params": {"samekey": [0, 1]}, "cross": True},
+        {"harness": "VerifC17V2Mixed", "params": {}, "cross": True},
+        {"harness": "VerifC17V2Mixed", "params": {}, "reversemaps": True, "cross": True},
+        {"harness": "VerifC17V2Partial", "params": {"wrongtype": [0, 1]}, "cross": True},
+        {"harness": "VerifC17V2Partial", "params": {"wrongtype": [0, 1]}, "reversemaps": True, "cross": True},
     ],
     "bounds": {
-        "quick": "v1 (MemDB actor): all sequences of k<=4 events, each a write / blocking read / reader cancellation / duty expiry with symbolic kind, key (2 duties x 2 validators) and data; v2 (MemDBV2): store/re-store/await sequence with symbolic data; two readers blocked on the same or on different keys followed by one Store of both keys",
+        "quick": "v1 also over keys that differ in the sync subcommittee index only (k=3); v2: a Store carrying an already stored identical entry and a new one wakes the new key's reader (both set orders); a Store in which one entry is refused (conflicting re-store, or data of the wrong type for a sync-committee aggregator duty) still wakes the reader of an entry it stored (both orders); v1 (MemDB actor): all sequences of k<=4 events, each a write / blocking read / reader cancellation / duty expiry with symbolic kind, key (2 duties x 2 validators) and data; v2 (MemDBV2): store/re-store/await sequence with symbolic data; two readers blocked on the same or on different keys followed by one Store of both keys",
         "thorough": "v1 up to k=6 events",
     },
     "outside": "v1 Store/Await wrappers (clone-on-write, select on ctx/quit); more than two blocked v2 readers; arbitrary pre-emption inside v2's critical sections (sequences of whole critical sections only); wall-clock promptness ('as soon as' = within the same actor step / without a further store)",
@@ -368,14 +380,15 @@ CHECKS["C09"] = {
     "quick": [
         {"harness": "VerifC09Aggregate", "params": {"n": 4, "nv": [1, 2], "m": [2, 3, 4]}, "redirects": _C9R},
         {"harness": "VerifC09Aggregate", "params": {"n": 3, "nv": 1, "m": [2, 3]}, "redirects": _C9R},
-        {"harness": "VerifC09Att", "params": {"n": 4, "idx": [0, 1, 2, 3]}, "redirects": _C9R},
+        {"harness": "VerifC09Att", "params": {"n": 4, "idx": [0, 1, 2, 3], "prime": 0}, "redirects": _C9R},
+        {"harness": "VerifC09Att", "params": {"n": 4, "idx": [0, 2], "prime": 1}, "redirects": _C9R},
     ],
     "thorough": [
         {"harness": "VerifC09Aggregate", "params": {"n": [3, 4, 5, 6, 7], "nv": [1, 2], "m": [2, 3, 4, 5, 6]}, "redirects": _C9R, "cross": True},
-        {"harness": "VerifC09Att", "params": {"n": [4, 5, 7], "idx": [0, 1, 2, 3, 4]}, "redirects": _C9R, "cross": True},
+        {"harness": "VerifC09Att", "params": {"n": [4, 5, 7], "idx": [0, 1, 2, 3, 4], "prime": [0, 1]}, "redirects": _C9R, "cross": True},
     ],
     "bounds": {
-        "quick": "real attestation objects: n=4, threshold-many core.VersionedAttestation partials (phase0 form) with symbolic content, symbolic token fields and a symbolic choice of whose content each partial signature is over; none / the first / a later partial carries the VC-only ValidatorIndex (the object the group signature is injected into): published exactly when all partials sign the published object's root, the published object is the verified one; n in {3,4}, threshold ceil(2n/3); one Aggregate call over 1 or 2 validators with 2..4 partials each; share index (1..n), signed root and all four signature-token fields of every partial symbolic (wrong share, wrong index, other message, invalid, repeated share, too few are all instances)",
+        "quick": "two calls on one aggregator (a valid aggregation over another content first; the partials of the second call may reuse signatures made over the first content); real attestation objects: n=4, threshold-many core.VersionedAttestation partials (phase0 form) with symbolic content, symbolic token fields and a symbolic choice of whose content each partial signature is over; none / the first / a later partial carries the VC-only ValidatorIndex (the object the group signature is injected into): published exactly when all partials sign the published object's root, the published object is the verified one; n in {3,4}, threshold ceil(2n/3); one Aggregate call over 1 or 2 validators with 2..4 partials each; share index (1..n), signed root and all four signature-token fields of every partial symbolic (wrong share, wrong index, other message, invalid, repeated share, too few are all instances)",
         "thorough": "n in 3..7, up to 6 partials per validator, both solvers",
     },
     "outside": "the BLS algebra itself (C08: ideal functionality instead); NewVerifier -> core.VerifyEth2SignedData -> signing.Verify (domain, epoch and fork handling of the real verifier; the harness verifier checks the group token against the object's own root); real SignedData types and the VersionedAttestation ValidatorIndex special case; SSZ roots",
